@@ -1,5 +1,6 @@
 import Resgate.Gw.Close
 import Resgate.Gw.Populate
+import Resgate.Gw.Collector
 import Resgate.Gw.Cache
 import Resgate.Model.Encode
 import Resgate.Model.Http
@@ -40,24 +41,6 @@ def newSubObj (cid : Nat) (rid : String) (throttle : Option Nat) : M Nat := do
 
 def getRcb (cid id : Nat) : M Rcb := return tget (← getConn cid).rcbs id
 def setRcb (cid id : Nat) (r : Rcb) : M Unit := modConn cid fun c => { c with rcbs := tset c.rcbs id r }
-
-def lcg (x : Nat) : Nat := (x * 6364136223846793005 + 1442695040888963407) % 18446744073709551616
-
-/-- A permutation of `l` determined by `seed`. -/
-def shuffle {α} (seed : Nat) : List α → List α
-  | [] => []
-  | l@(_ :: _) =>
-    let rec go (fuel : Nat) (seed : Nat) (l : List α) (acc : List α) : List α :=
-      match fuel, l with
-      | 0, _ => acc.reverse ++ l
-      | _, [] => acc.reverse
-      | fuel + 1, l =>
-        let s := lcg seed
-        let i := (s / 65536) % l.length
-        match l[i]? with
-        | some x => go fuel s (l.eraseIdx i) (x :: acc)
-        | none => acc.reverse ++ l
-    go l.length seed l []
 
 /-- Go ranges over maps in an unspecified order; the model's order is a parameter (`Gw.ord`):
     0..5 = sorted, optionally reversed, rotated (one policy for every range); from 6 on every
@@ -157,16 +140,25 @@ partial def traverse (cid uid : Nat) (state : Nat)
 
 /- `wsConn.tryDelete` (gc states: 0 stop, 1 root, 2 none, 3 delete, 4 keep, 5 unsend). -/
 
-/-- The two passes of `tryDelete` with an explicit memo table, keyed by subscription object (uid). -/
+/-- `wsConn.tryDelete`: the two pure traversals `pass1F` / `pass2F` over the connection, then the
+    dispose / unsend loop. Fuel: one descent per subscription object. -/
 partial def tryDeleteCore (cid uid : Nat) (sent : Bool) (sentDiff : Int) : M Unit := do
   let s ← getSub cid uid
   if s.direct > 0 then return
-  let memo0 : List (String × Nat × Int × Int × Nat) := [(s.rid, uid, s.indirect, s.indirectsent, 2)]
-  let memo1 ← pass1 cid uid 1 sentDiff memo0
-  let rr := (memo1.find? (·.2.1 == uid)).getD default
+  let g ← get
+  let c ← getConn cid
+  let fuel := c.objs.length + 2
+  let memo0 : Memo := [(s.rid, uid, s.indirect, s.indirectsent, 2)]
+  let (memo1, ctr1, ok1) := pass1F g.ord sentDiff fuel c uid 1 memo0 g.ordCtr
+  modify fun g => { g with ordCtr := ctr1 }
+  if !ok1 then doPanic "tryDelete: recursion bound exceeded"
+  let rr := (memo1.find uid).getD default
   let (_, _, rind, rsent, _) := rr
   if rind > 0 && !(sent && rsent == 0) then return
-  let (memo2, _) ← pass2 cid uid 3 sent memo1
+  let (memo2, ctr2, ok2, found) := pass2F g.ord sent fuel c uid 3 memo1 ctr1
+  modify fun g => { g with ordCtr := ctr2 }
+  if !ok2 then doPanic "tryDelete: recursion bound exceeded"
+  if !found then doPanic "tryDelete: subscription not registered by the first pass"
   for (rid, u, _, _, st) in memo2 do
     if st == 3 then
       disposeSub cid u
@@ -174,48 +166,6 @@ partial def tryDeleteCore (cid uid : Nat) (sent : Bool) (sentDiff : Int) : M Uni
       modConn cid fun c => if sget c.subs rid == some u then { c with subs := sdel c.subs rid } else c
     else if st == 5 then
       unsendSub cid u
-
-/-- Pass 1 of `tryDelete`: `traverse(gcStateRoot, …)`. -/
-partial def pass1 (cid uid : Nat) (state : Nat) (sentDiff : Int)
-    (memo : List (String × Nat × Int × Int × Nat)) : M (List (String × Nat × Int × Int × Nat)) := do
-  let s ← getSub cid uid
-  if s.direct > 0 then return memo
-  -- callback
-  let (memo, st) :=
-    if state == 1 then (memo, 2)
-    else match memo.find? (·.2.1 == uid) with
-      | some (r, u, i, is, gs) =>
-        (memo.map (fun e => if e.2.1 == u then (r, u, i - 1, is - sentDiff, gs) else e), 0)
-      | none => (memo ++ [(s.rid, uid, s.indirect - 1, s.indirectsent - sentDiff, 2)], 2)
-  if st == 0 then return memo
-  let mut memo := memo
-  for (_, child, _) in (← orderedRefs s) do
-    memo ← pass1 cid child st sentDiff memo
-  return memo
-
-/-- Pass 2 of `tryDelete`: `traverse(gcStateDelete, …)`. Returns the memo and nothing else. -/
-partial def pass2 (cid uid : Nat) (state : Nat) (sent : Bool)
-    (memo : List (String × Nat × Int × Int × Nat)) :
-    M (List (String × Nat × Int × Int × Nat) × Unit) := do
-  let s ← getSub cid uid
-  if s.direct > 0 then return (memo, ())
-  let some (r, u, i, is, gs) := memo.find? (·.2.1 == uid)
-    | do doPanic "tryDelete: subscription not registered by the first pass"; return (memo, ())
-  let setSt := fun (m : List (String × Nat × Int × Int × Nat)) (n : Nat) =>
-    m.map (fun e => if e.2.1 == u then (r, u, i, is, n) else e)
-  -- callback
-  let (memo, st) :=
-    if gs ≥ 4 then (memo, 0)
-    else if i > 0 || state == 4 then
-      if sent && is == 0 then (setSt memo 5, 4) else (setSt memo 4, 4)
-    else if gs != 2 then (memo, 0)
-    else (setSt memo 3, 3)
-  if st == 0 then return (memo, ())
-  let mut memo := memo
-  for (_, child, _) in (← orderedRefs s) do
-    let (m, _) ← pass2 cid child st sent memo
-    memo := m
-  return (memo, ())
 
 /-- `wsConn.Unsubscribe` / `removeCount`. -/
 partial def connUnsubscribe (cid uid : Nat) (direct sent : Bool) (count : Int) (tryDel : Bool) : M Unit := do
